@@ -176,6 +176,9 @@ def run(ctx: Ctx) -> None:
         from props import c05
         ctx.guard("tie escape", c05.tie_escape)
         ctx.guard("monitor P-blk", monitor_blockstart)
+        from props import c06
+        ctx.guard("tie fullwrap", c06.tie_fullwrap, ctx.scale(6000, 60000))
+        ctx.guard("tie layers", c06.tie_layers)
     ast_oracle(ctx, rendertie.SPECIAL_DOCS, "special")
     ast_oracle(ctx, gen_docs(ctx, ctx.scale(500, 8000)), "generated-clean")
     ast_oracle(ctx, gen_docs(ctx, ctx.scale(120, 2000), hazards=True, clean=False), "generated-hazards")
@@ -186,9 +189,24 @@ def run(ctx: Ctx) -> None:
 
 def search(ctx: Ctx) -> None:
     for b in ctx.broken_inputs:
-        doc = b["case"].get("doc")
+        c = b["case"]
+        doc = c.get("doc")
         if doc:
             ast_oracle(ctx, [doc], "from-broken-tie")
+        elif "text" in c:
+            # a paragraph / line sequence on which a wrapper-layer tie broke: read it as a document
+            t = c["text"]
+            W = c.get("W", 88)
+            sem = c.get("mode") == "sentence"
+            for d in (t + "\n", "- " + t.replace("\n", "\n  ") + "\n", "> " + t.replace("\n", "\n> ") + "\n"):
+                try:
+                    a = mdast.norm_doc(d.strip() + "\n")
+                    out = fmt(d, W if isinstance(W, int) else 88, sem)
+                    if a != mdast.norm_doc(out):
+                        ctx.fail("MEANING: the formatted output reads as a different document", {"doc": d, "W": W, "semantic": sem},
+                                 {"diff": mdast.first_diff(a, mdast.norm_doc(out)), "out": out}, known=attribute(ctx, d, W, sem))
+                except Exception as e:
+                    ctx.fail("format or re-parse raised", {"doc": d, "W": W, "semantic": sem}, repr(e))
     ast_oracle(ctx, gen_docs(ctx, 3000), "search-clean")
 
 
